@@ -8,5 +8,6 @@ CONSTANTS
   MaxStepFaults = 3
   Vs <- MC_VsFixed
   WithRelease = TRUE
+  MaxSess = 2
 VIEW View
 CHECK_DEADLOCK FALSE
